@@ -52,6 +52,9 @@ CLAIMED['C30'] = ("the real handleHandshakeResponse (plugin/length dispatch, Use
 CLAIMED['C33'] = ("decrypt(key, encrypt(key, d)) == d for every plain text of 0..33 bytes and key lengths 16/24/32 (other lengths rejected) through the real pkcs5 padding, ECB block loops and error paths; decrypting arbitrary data (0..33 bytes) fails or yields data without panicking; FullDirPath / FullNamespacePath of every path <= 6 bytes over {/ . a \\ * NUL} stay inside the storage directory or are rejected",
     "the AES block is a symbolic XOR bijection (mockey natively) and base64 an opaque bijection (engine stub): AES, base64, JSON encoding, etcd and file I/O are outside the claim, so 'equal to the submitted configuration' is decided for the encrypted credential fields only")
 
+CLAIMED['C36'] = ("metamorphic check of the real GetFingerprint: every variant of a base statement that changes only a number literal (1..3 symbolic digits), a string literal (0..2 symbolic bytes, either quote, escaped quotes), one gap's whitespace (1..2 symbolic whitespace bytes), the letter case of a keyword, or adds one block comment (0..2 symbolic bytes, spaced or glued) has the base fingerprint; IN lists of 1..4 values collapse to the 1-value fingerprint; mutants (other table, column, operator, extra column) get another fingerprint",
+    "one base statement shape plus IN lists (not the 12 shapes of the design); ASCII; md5 of the fingerprint is not modelled (equal fingerprints give equal md5; different fingerprints are assumed not to collide); '/*!' and '/*+' are not comments; known finding C36-comment-glued-to-word")
+
 NA_REASON = "check not built yet (work in progress; see DESIGN.md section 3 for the planned harness)"
 NA = {}
 
